@@ -14,7 +14,7 @@ Layers
 Go panics are `none` of `Option` in layer 2 and `Res.panic` in layers 4/5.  int32 height/size are `Nat`
 (the code never reaches 2^31 leaves); the index returned by `get` is an `Int` exactly as computed by the code.
 Loading is eager (whole tree) where the Go code is lazy: identical on every database in which all records reachable
-from the root are present (which `save` guarantees — theorem `C01.load_save`).
+from the root are present (which `save` guarantees — theorems `C01.load_save_partial`, `C01.old_roots_stable`).
 -/
 import Std.Data.HashMap
 import Chain33Model.Base.Proto
@@ -483,7 +483,7 @@ structure Store where
   /-- `Store.trees`: pending trees by root hash (`none` = "empty update, reuse parent"). -/
   trees : List (Bytes × Option Node)
   /-- `nodeDB.cache` (the per-database node cache, `db.GetCache()`), at the granularity this eager model
-  needs: root hash ↦ loaded tree.  Emptied by `reopen`.  Transparent: `C01.cache_transparent`. -/
+  needs: root hash ↦ loaded tree (as the records describe it).  Emptied by `reopen`. -/
   cache : Std.HashMap Bytes Node
 
 def Store.new (cfg : Cfg) : Store := ⟨cfg, {}, [], {}⟩
